@@ -61,7 +61,18 @@ func genUser(r *hutil.Rand) string {
 // hostile user names: anything printable a client can send (spaces, words of the message, forged fragments)
 func genHostileUser(r *hutil.Rand) string {
 	frags := []string{" from ", " port ", "from", "port", " ", "  ", "x", "bob", "6.6.6.6", "22", " ssh2", "invalid user ", "User ", "'", "\"", "\\", ":", "[", "]", "%", "日本", "a b"}
-	switch r.Intn(6) {
+	switch r.Intn(8) {
+	case 6:
+		// a complete "accepted" message inside the name: `ssh 'Accepted password for root from … ssh2'@host`
+		return fmt.Sprintf("Accepted password for %s from %s port %d ssh2", genUser(r), genAddr(r), r.Intn(65536))
+	case 7:
+		fp, sum := genFP(r)
+		m := fmt.Sprintf("Accepted publickey for %s from %s port %d ssh2: %s %s:%s", genUser(r), genAddr(r), r.Intn(65536), hutil.Pick(r, keyTypes), fp, sum)
+		if r.Bool() {
+			fp2, sum2 := genFP(r)
+			m += fmt.Sprintf(" ID %s (serial %s) CA %s %s:%s", genKeyID(r), genSerial(r), hutil.Pick(r, keyTypes[:6]), fp2, sum2)
+		}
+		return m
 	case 0:
 		return fmt.Sprintf("x from %s port %d", genAddr(r), r.Intn(65536))
 	case 1:
